@@ -229,3 +229,55 @@ def unit_ref(obj):
 
 def text_hash(s: str):
     return hashlib.sha1(s.encode()).hexdigest()[:16]
+
+
+# ------------------------------------------------------------------ parallel program loops
+_PAR = {"fn": None, "stats": None, "wd": None}
+
+
+def _par_worker(i):
+    st = _PAR["stats"]
+    if st is None:
+        st = _PAR["stats"] = Stats()
+        _PAR["wd"] = Workdir()
+        import atexit
+        atexit.register(_PAR["wd"].close)
+    before = (st.queries, st.unsat, st.sat, st.unknown, st.solver_s, st.programs, st.accepted, st.rejected)
+    h0 = set(st.hashes)
+
+    class _R:  # minimal stand-in for Reporter inside a worker (statistics only)
+        stats = st
+    try:
+        res = _PAR["fn"](i, _R, _PAR["wd"])
+    except BaseException as e:
+        if isinstance(e, (KeyboardInterrupt, SystemExit)):
+            raise
+        res = {"status": "worker-error", "why": f"{type(e).__name__}: {e}", "traceback": traceback.format_exc()[-1500:]}
+    after = (st.queries, st.unsat, st.sat, st.unknown, st.solver_s, st.programs, st.accepted, st.rejected)
+    return i, res, tuple(a - b for a, b in zip(after, before)), sorted(st.hashes - h0)
+
+
+def parallel_programs(rep, n, fn, jobs=None, deadline=None):
+    """runs fn(i, rep_like, workdir) for i in range(n) in forked worker processes (each with its own Workdir and solver
+    state); fn must return something picklable.  Statistics are merged into rep.stats.  Items not started before
+    `deadline` (time.time() value) are skipped.  -> dict i -> result"""
+    import multiprocessing as mp
+    jobs = jobs or min(16, os.cpu_count() or 4)
+    if os.environ.get("VERIF_JOBS"):
+        jobs = int(os.environ["VERIF_JOBS"])
+    _PAR["fn"] = fn
+    out = {}
+    ctx = mp.get_context("fork")
+    with ctx.Pool(jobs) as pool:
+        it = pool.imap_unordered(_par_worker, range(n), chunksize=1)
+        for i, res, d, hs in it:
+            out[i] = res
+            st = rep.stats
+            st.queries += d[0]; st.unsat += d[1]; st.sat += d[2]; st.unknown += d[3]; st.solver_s += d[4]
+            st.programs += d[5]; st.accepted += d[6]; st.rejected += d[7]
+            st.hashes |= set(hs)
+            if deadline is not None and time.time() > deadline:
+                pool.terminate()
+                break
+    _PAR["fn"] = None
+    return out
